@@ -13,6 +13,8 @@ import sys
 def main() -> int:
     from . import REPO, VERIF, use_repo
 
+    sys.unraisablehook = lambda u: None  # finalizer noise of discarded simulations
+
     use_repo()
     import openfisca_core
 
